@@ -753,6 +753,57 @@ def rule_r11(F):
     return r
 
 
+def _reads_field(F, b, field, depth=0, seen=None):
+    """Does the MIR of b (or of a crate function / closure it calls, to depth 2) read a place with a field projection called `field`?"""
+    import json
+    seen = seen if seen is not None else set()
+    if b is None or not b.mir or b.path in seen:
+        return False
+    seen.add(b.path)
+    if ('"%s"]' % field) in json.dumps(b.mir["blocks"]):
+        return True
+    if depth >= 2:
+        return False
+    nxt = set()
+    for _, t in mir.calls(b):
+        for d in (mir.callee(t), mir.callee_def(t)):
+            if d and F.has(d):
+                nxt.add(d)
+    for pth in F.paths():
+        if pth.startswith(b.path + "::{closure"):
+            nxt.add(pth)
+    return any(_reads_field(F, F.body(d), field, depth + 1, seen) for d in sorted(nxt))
+
+
+def rule_r12(F):
+    """Every function is retrievable from Rust by its MODULE PATH: the exported name of an item is built from the chain of modules
+    that contain it.  That chain is recorded in one place only - `ModuleScope.parent_module`, written when the module tree is
+    declared - so the function that spells a module's dotted path has to follow that field.  (The scope graph's own `parent` link is
+    not the module tree: every module scope hangs directly under the global scope.)"""
+    r = RuleResult("C13.R12", "the dotted path of a module (prefix of every exported function name) is built by following ModuleScope.parent_module", floor=2)
+    cands = [b for b in F.all_bodies() if b.mir and b.hir and "{closure" not in b.path and b.path.startswith("typechecker::")
+             and any("ModuleScope" in str(p_.get("ty") or "") for p_ in b.hir.get("params", []))
+             and "String" in str((b.mir["locals"] or [{}])[0].get("ty") or "")]
+    if not cands:
+        r.missing("a function of the type checker that turns a &ModuleScope into its path (String)")
+        return r
+    for b in cands:
+        r.inst("path builder %s" % b.path, {"fn": b.path})
+        if not _reads_field(F, b, "parent_module"):
+            r.bad(b.path, "module path not built from parent_module", relfile(b.file), b.line,
+                  "%s produces the path of a module without reading ModuleScope.parent_module: the enclosing modules are then found some other way (e.g. the scope graph's "
+                  "parent link, which is the global scope for every module), so a function in `pkg.a.b` is exported under a shorter name and `get_function(\"a.b.f\")` "
+                  "does not find it" % hir.last(b.path))
+    # the chain has to be there to be followed: some function of the type checker writes the field when modules are declared
+    writers = [b.path for b in F.all_bodies() if b.mir and b.path.startswith("typechecker::") and "{closure" not in b.path and "Clone" not in b.path
+               and any(s_["k"] == "assign" and s_["rv"]["k"] == "agg" and (s_["rv"].get("adt") or "").endswith("ModuleScope") for blk in b.blocks for s_ in blk["stmts"])]
+    for w in writers:
+        r.inst("ModuleScope constructed in %s" % w)
+    if not writers:
+        r.missing("construction of ModuleScope in the type checker")
+    return r
+
+
 def rules(ctx):
     F = ctx["F"]
-    return [rule_r1(F), rule_r2(F), rule_r3(F), rule_r4(F), rule_r5(F), rule_r6(F), rule_r7(F), rule_r8(F), rule_r9(F), rule_r10(F), rule_r11(F)]
+    return [rule_r1(F), rule_r2(F), rule_r3(F), rule_r4(F), rule_r5(F), rule_r6(F), rule_r7(F), rule_r8(F), rule_r9(F), rule_r10(F), rule_r11(F), rule_r12(F)]
